@@ -299,6 +299,31 @@ def run(ck, P):
     ck.rule("C05.7-ITR-REMOVED", "R-GUARD: map iterator remove/get/set refuse once the current entry was removed through the iterator", floor=4)
     itr_removed_guards(ck, P, X, "C05.7-ITR-REMOVED", M, "m_map")
 
+    # callback iteration with removal of the current entry: back-shift deletion moves the next entry of the cluster into the slot just
+    # visited, so the slot must be visited again — the rewind has to act on the very variable the loop advances
+    ck.rule("C05.8-ITERATE-REWIND", "R-PAIR: in m_map_iterate, when the callback removed the current entry (the slot's key changed) the loop position is "
+            "stepped back once, on the variable the loop step advances (so that step + rewind revisit the slot); any other change of the "
+            "length ends the iteration with an error", floor=1)
+    mi = P.fn("m_map_iterate", M)
+    ck.analysed(mi)
+    loops_ = [(t_, h_, mi.natural_loop(t_, h_)) for (t_, h_) in mi.back_edges()]
+    cbs = [e for e in mi.calls() if e.callee is None and S(e.e["fn"]) == mi.params[1]["name"]]
+    ck.need(len(cbs) == 1 and loops_, "m_map_iterate: callback invocation / loop not found")
+    body_ = [l for l in loops_ if cbs[0].block.id in l[2]]
+    ck.need(len(body_) == 1, "m_map_iterate: callback is not inside exactly one loop")
+    tail_, head_, blocks_ = body_[0]
+    steps = [e for e in mi.blocks[tail_].events if e.kind == "incdec" and e.e["op"] == "++" and strip(e.lhs)["k"] == "var"]
+    rewinds = [e for b_ in blocks_ for e in mi.blocks[b_].events if e.kind == "incdec" and e.e["op"] == "--" and strip(e.lhs)["k"] == "var"
+               and mi.ev_dominates(cbs[0], e)]
+    okw = len(steps) == 1 and len(rewinds) == 1 and S(steps[0].lhs) == S(rewinds[0].lhs)
+    if okw:
+        fr_ = X.facts(mi, rewinds[0])
+        okw = any(a_.endswith("->key == key)") and p_ is False for (a_, p_) in (fr_ or ()))
+    ck.ob("C05.8-ITERATE-REWIND", mi.site("rewind acts on the loop position"), okw,
+          "the loop steps '%s' and, when the callback removed the current entry, steps the same variable back once" % (S(steps[0].lhs) if steps else "?") if okw else
+          "the loop advances %s but the rewind after a removal decrements %s: a per-iteration copy is rewound, the position is not — the entry that back-shift "
+          "deletion moved into the visited slot is skipped" % ([S(e.lhs) for e in steps], [S(e.lhs) for e in rewinds]))
+
     ck.not_decided += ["correctness of probing/back-shift for colliding and wrapping clusters", "iteration visits every live entry exactly once",
                        "growth preserves all entries (depends on hash values)"]
 
